@@ -357,6 +357,16 @@ func (tb *Table) Ite(c, a, b *Term) *Term {
 	if a.S != b.S {
 		panic(fmt.Sprintf("smt: ite sort mismatch %v vs %v", a.S, b.S))
 	}
+	// the same condition again in a branch
+	if a.Op == OIte && a.Args[0] == c {
+		a = a.Args[1]
+	}
+	if b.Op == OIte && b.Args[0] == c {
+		b = b.Args[2]
+	}
+	if a == b {
+		return a
+	}
 	if a.S.K == KBool {
 		if a.IsTrue() && b.IsFalse() {
 			return c
@@ -1046,6 +1056,10 @@ func Body(t *Term) string {
 	case OSext:
 		fmt.Fprintf(&sb, "((_ sign_extend %d) %s)", t.Hi, Ref(t.Args[0]))
 	case OUF:
+		if len(t.Args) == 0 {
+			sb.WriteString(symName(t.Name))
+			break
+		}
 		sb.WriteString("(" + symName(t.Name))
 		for _, a := range t.Args {
 			sb.WriteString(" " + Ref(a))
